@@ -278,6 +278,25 @@ def main(report, tier, seed, workers, calibrate=False):
         solver.STATS.by_backend['z3py-inproc'] = solver.STATS.by_backend.get('z3py-inproc', 0) + r['queries']
         for b in r['bad'][:1]:
             rp = replay_concrete(tier, r['idx'], b['model'])
+            if not rp['reproduces'] and any(str(k_).startswith('__hb_') for k_ in b['model']):
+                # the path depends on the iteration order of a Python set (modelled as a hidden per-path order); CPython's
+                # order for small ints is fixed by their values: look for iteration numbers with the same relative order
+                # (all path conditions compare iterations only) whose real set order realises the path
+                import itertools as _it
+                names_ = sorted(k_ for k_ in b['model'] if not str(k_).startswith('__hb_'))
+                vals_ = sorted(set(int(b['model'][k_]) for k_ in names_))
+                tried = 0
+                for cand in _it.combinations([0, 1, 2, 3, 5, 8, 9, 10, 16, 17, 24], len(vals_)):
+                    remap = dict(zip(vals_, cand))
+                    m2 = {k_: remap[int(b['model'][k_])] for k_ in names_}
+                    rp2 = replay_concrete(tier, r['idx'], m2)
+                    tried += 1
+                    if rp2['reproduces']:
+                        rp = rp2
+                        b = dict(b, model=m2)
+                        break
+                    if tried >= 80:
+                        break
             key = b['problems'][0].split(': ', 1)[-1][:90]
             if rp['reproduces']:
                 path = report.write_replay(f"h{r['idx']}", dict(history=r['name'], idx=r['idx'], tier=tier, model=b['model'],
